@@ -6,7 +6,7 @@
  * Contexts: is_ascii_domain, is_{822,5321,5322}_email("x@D", false), is_utf8_domain / is_6531_email.
  */
 #include "../mc/mc.h"
-#include "../ref/ref_domain.h"
+#include "../ref/ref_idn.h"
 #include <eav.h>
 #include <idn2.h>
 
@@ -29,18 +29,10 @@ static const char *why_str(int whyset, int rc, int exp) {
     return w;
 }
 
-/* expected verdict in mode 6531 (see DESIGN 4/C04): exact via an independent conversion */
 static int expect_6531(const unsigned char *d, size_t n, int asciiv) {
-    int ascii = 1; for (size_t i = 0; i < n; i++) if (d[i] >= 0x80) ascii = 0;
-    if (ascii && asciiv == R_REJ) return R_REJ;
-    if (ascii && ref_idn_transparent(d, n)) return asciiv;
-    char *a = NULL;
-    char tmp[MC_CASEMAX + 1]; memcpy(tmp, d, n); tmp[n] = 0;
-    int r = idn2_to_ascii_8z(tmp, &a, IDN2_NONTRANSITIONAL);
-    MC_ADD(C_IDN, 1);
-    if (r != IDN2_OK) { if (a) free(a); return R_REJ; }
-    int v = ref_domain((const unsigned char *)a, strlen(a), REF_OPTS);
-    free(a);
+    unsigned long c0 = ref_idn_calls;
+    int v = ref_expect_6531(d, n, asciiv, REF_OPTS);
+    MC_ADD(C_IDN, ref_idn_calls - c0);
     return v;
 }
 
